@@ -387,6 +387,24 @@ def compatible (p : Ty) (a : Val) : Bool :=
   match a with
   | .f64 _ => p.isNumeric || p == .list
   | a => a.ty == some p || p == .list
+/-! ## Plugin functions (`AddStdlibPluginFunc`, stdlib/stdlib.go) -/
+
+/-- the closure a plugin function is wrapped in: `func(a ...interface{}) (interface{}, error)` -/
+def pluginSig : Sig := ⟨[.list], true, [.iface, .error]⟩
+
+/-- A call of a registered plugin function whose `Run(args []interface{}) (interface{}, error)` behaves
+    as `body`. `viaAdapter` (regenerated from the source, `Gen.C19.pluginViaAdapter`): is the registered
+    object an `ECALFunctionAdapter` around that closure? If not, the plugin's `Run` is called with the
+    raw arguments and nothing stands between its panic and the interpreter. -/
+def runPlugin (viaAdapter : Bool) (shape : Shape) (oob : IntKind → Num → Int)
+    (body : List Val → BodyOut) (args : List Val) : Outcome :=
+  if viaAdapter then run shape oob (.fn pluginSig body) args
+  else
+    match body args with
+    | .panic => .escaped
+    | .ret vals => .done (.one (vals.headD .nil))
+        (match vals.drop 1 with | e :: _ => if e = .nil then none else some (.func e) | [] => none)
+
 /-- property-level notion "the argument fits the parameter": an ECAL number for a numeric
     parameter, or a (non-NULL) value of exactly the parameter's type -/
 def Fits (p : Ty) (a : Val) : Prop :=
